@@ -30,6 +30,10 @@ def run(ctx):
         "errs stack text of a real *errs.Error (op logerr) is replaced by a placeholder after the harness checked it "
         "equals err.StackTrace(true) and follows the main line inside the same Write; the time stamp taken by errs "
         "(time.Now) is replaced after a window check",
+        "reading of 'followed by the stack-trace lines when the record carries an errs stack': tracelog picks the stack "
+        "up only from a top-level attribute with key stack_trace while NO group is in force (tracelog.go:194); under "
+        "WithGroup the same record prints the stack as an ordinary attribute <group>.stack_trace=[...] on the main "
+        "line.  The model follows the code; C13.stack_lines_follow carries the 'no group in force' hypothesis",
         "buffered mode is driven deterministically: the test sink is either free (the harness waits for a sentinel "
         "record before reading the sink) or stalled with the delivery goroutine occupied by a primer record",
     ]
@@ -43,7 +47,7 @@ def run(ctx):
     ]
     ctx.lean(props=["Props.C13"], drivers=["drv_c13"])
     ctx.harness("./cmd/c13")
-    ctx.diff(area="log", driver="drv_c13", n={"quick": 60000, "thorough": 2400000}, stateful=True,
+    ctx.diff(area="log", driver="drv_c13", n={"quick": 40000, "thorough": 2400000}, stateful=True,
              trivial=lambda l, o: l.split(" ", 1)[0] in ("new", "mnew", "mode", "hold"),
              tagger=_tag, timeout=1500,
              theorem="C13.format_spec / one_write_per_record / derive_isolated / stack_lines_follow / "
